@@ -13,18 +13,19 @@ Hypotheses are the executable checks of the models, evaluated by the harness on 
 `validB` (both tskit indexes are permutations of the edge ids sorted by left/right coordinate, and
 `0 ≤ left < right ≤ L`), `noOverlapB` (edges with the same child do not overlap: a node has at most
 one parent at each position), `nodesBelowB` / `mutsOkB` (node ids below `num_nodes`, mutation
-positions `≥ 0`).  Numbers range over an arbitrary linearly ordered field (exact arithmetic); the
+positions `≥ 0`), and for the size-biased variant `timesOkB` (every edge's parent strictly older than
+its child) and `partitionB` (the break points used to state the span integral).  Numbers range over an arbitrary linearly ordered field (exact arithmetic); the
 Float instance of the same definitions is compared bit-for-bit with numba by the harness.
 
 What is proved: the plain tally in full (every mutation on the edge above its node at its position,
 none above roots; per-edge counts; spans `right - left`; independence of the sample mask and of the
 order in which mutations at the same position are visited; agreement with `mutation_span_array`), and
-for the size-biased variant `mutations_edge`, the *mutation weights* (each mutation weighted by the
-number of `mask` nodes at or below its node in the local tree at its position — for whatever mask is
-passed, i.e. the custom sample-set clause) and that the walk towards the root never reaches an
-impossible state.  The size-biased *span* weights and the singleton blocks
-(`phasing._block_singletons`) are NOT covered by a theorem here: see `C24_statement` and the harness
-(bit-exact correspondence of the size-biased model, naive per-tree oracle for both).
+the size-biased variant in full (`count_sizebiased_spec`: `mutations_edge`; each mutation weighted by
+the number of `mask` nodes at or below its node in the local tree at its position; each unit of span
+weighted by the number of `mask` nodes below the edge's child in that local tree — for whatever mask is
+passed, i.e. the custom sample-set clause; the walk towards the root never reaches an impossible
+state).  The singleton blocks (`phasing._block_singletons`) are NOT covered by a theorem here (other
+cluster); the harness checks them against a naive per-tree tally.
 -/
 import TsdateVerif.Proofs.CountMutMain
 
@@ -33,52 +34,6 @@ open Tsdate Tsdate.Sweep Tsdate.CountMut
 set_option linter.unusedSectionVars false
 
 variable {α : Type} [Inhabited α] [Field α] [LinearOrder α] [IsStrictOrderedRing α]
-
-/-- The visiting order `np.argsort(mutations_position)` and the mutation table meet what the
-kernel's proof needs, given the executable check `mutsOkB`. -/
-theorem argsort_valid (M : Muts α) (N : Nat) (h : mutsOkB M N = true) :
-    MutsValid M N (argsort M) := by
-  simp only [mutsOkB, Bool.and_eq_true, List.all_eq_true, List.mem_range, decide_eq_true_eq] at h
-  refine ⟨List.mergeSort_perm _ _, ?_, fun m hm => (h.2 m hm).1, fun m hm => (h.2 m hm).2⟩
-  have := List.pairwise_mergeSort
-    (le := fun i j => decide (aget M.pos i ≤ aget M.pos j))
-    (fun a b c hab hbc => by
-      simp only [decide_eq_true_eq] at *
-      exact le_trans hab hbc)
-    (fun a b => by
-      simp only [Bool.or_eq_true, decide_eq_true_eq]
-      exact le_total _ _)
-    (List.range M.node.size)
-  exact this.imp (fun h => by simpa using h)
-
-theorem children_below (T : Tables α) (N : Nat) (h : nodesBelowB T N = true) :
-    ∀ e, e < T.numEdges → T.chi e < N := by
-  intro e he
-  simp only [nodesBelowB, List.all_eq_true, List.mem_range, Bool.and_eq_true,
-    decide_eq_true_eq] at h
-  exact (h e he).2
-
-theorem parents_below (T : Tables α) (N : Nat) (h : nodesBelowB T N = true) :
-    ∀ e, e < T.numEdges → T.par e < N := by
-  intro e he
-  simp only [nodesBelowB, List.all_eq_true, List.mem_range, Bool.and_eq_true,
-    decide_eq_true_eq] at h
-  exact (h e he).1
-
-/-- the executable checks give the static facts the kernel proof uses (plain variant) -/
-theorem static_plain (T : Tables α) (N : Nat) (hV : validB T = true) (hO : noOverlapB T = true)
-    (hN : nodesBelowB T N = true) : Static T N false (fun _ => (0 : α)) :=
-  ⟨valid_of_validB T hV, noOverlap_of_B T hO, children_below T N hN, parents_below T N hN,
-    fun h => absurd h (by simp)⟩
-
-/-- … and for the size-biased variant, with node times making every parent older than its child -/
-theorem static_sized (T : Tables α) (N : Nat) (sb : Bool) (times : Array α) (hV : validB T = true)
-    (hO : noOverlapB T = true) (hN : nodesBelowB T N = true) (hT : timesOkB T times = true) :
-    Static T N sb (fun u => aget times u) := by
-  refine ⟨valid_of_validB T hV, noOverlap_of_B T hO, children_below T N hN, parents_below T N hN, ?_⟩
-  intro _ e he
-  simp only [timesOkB, List.all_eq_true, List.mem_range, decide_eq_true_eq] at hT
-  exact hT e he
 
 /-- **The plain tally is exact** (`count_plain_spec` + `span_plain` of the design).  On valid tables
 `_count_mutations(size_biased=False)` terminates without reaching an impossible state and
@@ -96,34 +51,43 @@ theorem count_plain_spec (T : Tables α) (M : Muts α) (isSample : Array Bool)
         aget s.edgeMuts e =
           (((List.range M.node.size).countP fun m => decide (Above T M m e) : Nat) : α) ∧
         aget s.edgeSpan e = T.r e - T.l e) := by
-  obtain ⟨s, hs, herr, h1, h2, h3⟩ := countWith_correct T M isSample false (argsort M) _
+  obtain ⟨s, hs, _, herr, h1, h2, h3⟩ := countWith_correct T M isSample false (argsort M) _ []
     (static_plain T _ hV hO hN) (argsort_valid M _ hM)
   refine ⟨s, hs, herr, h1, fun e he => ⟨?_, h3 rfl e he⟩⟩
   rw [h2 e he]
   simp only [wt, Bool.false_eq_true, if_false]
   exact sum_indicator _ _
 
-/-- **The frequency-weighted mutation tally is exact, for whatever sample set is passed.**  With
-`size_biased=True` and any mask `node_is_sample` (the default one or a custom one), on valid tables
-whose node times make every parent older than its child, the kernel terminates, the walk towards the
-root never reaches an impossible state (`err = false`: it neither runs out of its `N + 1` steps nor
-meets a parent without an edge), `mutations_edge` is the same exact map as in the plain variant, and
-`edges_mutations[e]` is the sum, over the mutations whose edge is `e`, of the number of `mask` nodes at
-or below the mutation's node in the local tree at the mutation's position
-(`samplesBelow T mask pos u`: nodes `v` with `mask[v]` from which `u` is reached by following parent
-pointers of the tree at `pos`). -/
-theorem count_sizebiased_weights (T : Tables α) (M : Muts α) (mask : Array Bool) (times : Array α)
+/-- **The frequency-weighted tally is exact, for whatever sample set is passed**
+(`count_sizebiased_spec`).  With `size_biased=True` and any mask `node_is_sample` (the default one or a
+custom one), on valid tables whose node times make every parent older than its child:
+* the kernel terminates and the walk towards the root never reaches an impossible state
+  (`err = false`: it neither runs out of its `N + 1` steps nor meets a parent without an edge);
+* `mutations_edge` is the same exact map as in the plain variant;
+* `edges_mutations[e]` is the sum, over the mutations whose edge is `e`, of the number of `mask` nodes
+  at or below the mutation's node in the local tree at the mutation's position
+  (`samplesBelow T mask pos u`: nodes `v` with `mask[v]` from which `u` is reached by following the
+  parent pointers of the tree at `pos`);
+* `edges_span[e]` is the integral over the edge of the number of `mask` nodes at or below the edge's
+  child in the local tree: for **any** list of break points `bs` (increasing, from `0`, containing `L`
+  and every edge end point — e.g. tskit's tree breakpoints) it is
+  `Σ_i Wspec(e, bs_i) * (bs_{i+1} - bs_i)` with `Wspec(e, a) = samplesBelow T mask a (child e)` if the
+  edge covers `a` and `0` otherwise (`integ f [b0,…,bk] = Σ f(b_i) * (b_{i+1} - b_i)`). -/
+theorem count_sizebiased_spec (T : Tables α) (M : Muts α) (mask : Array Bool) (times : Array α)
+    (bs : List α)
     (hV : validB T = true) (hO : noOverlapB T = true)
     (hN : nodesBelowB T mask.size = true) (hM : mutsOkB M mask.size = true)
-    (hT : timesOkB T times = true) :
+    (hT : timesOkB T times = true) (hP : partitionB T bs = true) :
     ∃ s, countMutations T M mask true = some s ∧ s.err = false ∧
       (∀ m, m < M.node.size → ∀ e, aget s.mutEdge m = some e ↔ Above T M m e) ∧
-      (∀ e, e < T.numEdges → aget s.edgeMuts e =
-        ((List.range M.node.size).map fun m =>
-          if Above T M m e then (samplesBelow T mask (aget M.pos m) (aget M.node m) : α) else 0).sum) := by
-  obtain ⟨s, hs, herr, h1, h2, _⟩ := countWith_correct T M mask true (argsort M) _
+      (∀ e, e < T.numEdges →
+        aget s.edgeMuts e =
+          ((List.range M.node.size).map fun m =>
+            if Above T M m e then (samplesBelow T mask (aget M.pos m) (aget M.node m) : α) else 0).sum ∧
+        aget s.edgeSpan e = integ (Wspec T mask e) bs) := by
+  obtain ⟨s, hs, hsp, herr, h1, h2, _⟩ := countWith_correct T M mask true (argsort M) _ bs
     (static_sized T _ true times hV hO hN hT) (argsort_valid M _ hM)
-  refine ⟨s, hs, herr, h1, fun e he => ?_⟩
+  refine ⟨s, hs, herr, h1, fun e he => ⟨?_, hsp rfl (partition_of_B T bs hP) e he⟩⟩
   rw [h2 e he]
   simp only [wt, if_true]
 
@@ -136,7 +100,7 @@ theorem mutations_edge_spec (T : Tables α) (M : Muts α) (isSample : Array Bool
     (hT : timesOkB T times = true) :
     ∃ s, countMutations T M isSample sb = some s ∧
       (∀ m, m < M.node.size → ∀ e, aget s.mutEdge m = some e ↔ Above T M m e) := by
-  obtain ⟨s, hs, _, h1, _⟩ := countWith_correct T M isSample sb (argsort M) _
+  obtain ⟨s, hs, _, _, h1, _⟩ := countWith_correct T M isSample sb (argsort M) _ []
     (static_sized T _ sb times hV hO hN hT) (argsort_valid M _ hM)
   exact ⟨s, hs, h1⟩
 
@@ -165,9 +129,9 @@ theorem order_irrelevant (T : Tables α) (M : Muts α) (isSample : Array Bool) (
       (∀ m, m < M.node.size → aget s1.mutEdge m = aget s2.mutEdge m) ∧
       (∀ e, e < T.numEdges → aget s1.edgeMuts e = aget s2.edgeMuts e ∧
         aget s1.edgeSpan e = aget s2.edgeSpan e) := by
-  obtain ⟨s1, hs1, _, a1, c1, b1⟩ := countWith_correct T M isSample false o1 _
+  obtain ⟨s1, hs1, _, _, a1, c1, b1⟩ := countWith_correct T M isSample false o1 _ []
     (static_plain T _ hV hO hN) h1
-  obtain ⟨s2, hs2, _, a2, c2, b2⟩ := countWith_correct T M isSample false o2 _
+  obtain ⟨s2, hs2, _, _, a2, c2, b2⟩ := countWith_correct T M isSample false o2 _ []
     (static_plain T _ hV hO hN) h2
   refine ⟨s1, s2, hs1, hs2, ?_, ?_⟩
   · intro m hm
@@ -204,29 +168,6 @@ theorem specEdge_iff (T : Tables α) (M : Muts α) (hO : noOverlapB T = true) (m
   findEdge_iff T (noOverlap_of_B T hO) (aget M.node m) (aget M.pos m) e
 
 /-! ### `mutation_span_array` -/
-
-theorem tally_fold (E : Nat) (l : List (Option Nat)) (hl : ∀ e, some e ∈ l → e < E) :
-    ∀ (acc : Array α), acc.size = E → ∀ e, e < E →
-      aget (l.foldl tallyStep acc) e = aget acc e + (l.count (some e) : α) := by
-  induction l with
-  | nil => intro acc _ e _; simp
-  | cons a r ih =>
-    intro acc hsz e he
-    have hr : ∀ e, some e ∈ r → e < E := fun e h => hl e (List.mem_cons_of_mem _ h)
-    rw [List.foldl_cons]
-    cases a with
-    | none =>
-      simp only [tallyStep]
-      rw [ih hr acc hsz e he, List.count_cons]
-      simp
-    | some e0 =>
-      simp only [tallyStep]
-      have he0 : e0 < acc.size := by rw [hsz]; exact hl e0 (List.mem_cons_self ..)
-      rw [ih hr _ (by simpa using hsz) e he, aget_aset _ _ _ _ he0, List.count_cons]
-      by_cases hee : e = e0
-      · subst hee; simp; ring
-      · have : ¬ e0 = e := fun h => hee h.symm
-        simp [hee, this]
 
 /-- **`mutation_span_array` is the same direct tally**: its first column counts, per edge, the
 mutations whose `mut.edge` is that edge; its second column is `right - left` (definitionally). -/
@@ -278,36 +219,12 @@ theorem span_array_agrees (T : Tables α) (M : Muts α) (isSample : Array Bool)
     unfold spanColumn
     simp [he]
 
-/-! ### What is *not* proved: the full statement -/
+/-! ### Scope
 
-/-- `bs` is a partition of `[0, L]` that contains every edge end point: strictly increasing, from `0`
-to `L`.  The local tree is constant on every `[bs[i], bs[i+1])`; tskit's breakpoints are such a list. -/
-def Partition (T : Tables α) (bs : List α) : Prop :=
-  bs.Pairwise (· < ·) ∧ bs.head? = some 0 ∧ bs.getLast? = some T.seqLen ∧
-  ∀ e, e < T.numEdges → T.l e ∈ bs ∧ T.r e ∈ bs
-
-/-- The full C24 statement for the kernel in the frequency-weighted variant (the singleton blocks of
-`phasing._block_singletons` belong to the blocks model of C22/C23): with `samplesBelow T mask pos u` the
-number of `mask` nodes at or below `u` in the local tree at `pos`,
-* each mutation is weighted by the number of `mask` nodes below its node at its position, and
-* each unit of span by the number of `mask` nodes below the edge's child in that local tree: the span
-  is the sum, over the intervals of any partition containing all edge end points, of
-  (samples below the child on that interval) × (interval length) over the intervals the edge covers.
-`times` are node times with every parent strictly older than its child.
-Proved above: the plain variant in full and `mutations_edge` here.  NOT proved: the two weight clauses
-(tied by bit-exact correspondence of the size-biased model and by the per-tree oracle only). -/
-def C24_statement : Prop :=
-  ∀ (T : Tables α) (M : Muts α) (mask : Array Bool) (times : Array α) (bs : List α),
-    validB T = true → noOverlapB T = true → nodesBelowB T mask.size = true →
-    mutsOkB M mask.size = true → timesOkB T times = true → Partition T bs →
-    ∃ s, countMutations T M mask true = some s ∧ s.err = false ∧
-      (∀ m, m < M.node.size → ∀ e, aget s.mutEdge m = some e ↔ Above T M m e) ∧
-      (∀ e, e < T.numEdges →
-        aget s.edgeMuts e = (((List.range M.node.size).filter fun m => decide (Above T M m e)).map
-          fun m => (samplesBelow T mask (aget M.pos m) (aget M.node m) : α)).sum ∧
-        aget s.edgeSpan e = ((bs.zip bs.tail).map fun iv =>
-          if T.l e ≤ iv.1 ∧ iv.1 < T.r e then (samplesBelow T mask iv.1 (T.chi e) : α) * (iv.2 - iv.1)
-          else 0).sum)
+`count_plain_spec` and `count_sizebiased_spec` together are the full C24 statement for the kernel
+`_count_mutations` (mutations, spans, frequency weights, custom sample sets).  The singleton-block clause
+(`phasing._block_singletons`) is *not* modelled here: it belongs to the blocks model of C22/C23; this
+check covers it by the per-tree oracle only. -/
 
 /-! ### Non-vacuity (exact rationals)
 
@@ -328,6 +245,14 @@ example : validB exT = true ∧ noOverlapB exT = true ∧ nodesBelowB exT exS.si
 example : ((countWith exT exM exS false [0, 2, 1]).map fun s =>
     (s.mutEdge, s.edgeMuts, s.edgeSpan, s.err)) =
     some (#[some 0, some 3, none], #[1, 0, 0, 1, 0], #[5, 5, 5, 5, 5], false) := by decide +kernel
+
+/-- `[0, 5, 10]` is a partition for the example: edges 0, 1 carry one sample each over `[0,5)`
+(span 5), edge 2 carries two (span 10). -/
+example : partitionB exT [0, 5, 10] = true := by decide +kernel
+
+example : (integ (Wspec exT exS 2) [0, 5, 10], integ (Wspec exT exS 0) [0, 5, 10]) = (10, 5) := by
+  simp only [integ, Wspec]
+  decide +kernel
 
 example : ((countWith exT exM exS true [0, 2, 1]).map fun s =>
     (s.mutEdge, s.edgeMuts, s.edgeSpan, s.err)) =
